@@ -37,6 +37,8 @@ def operand(kind, k):
         return X.num(lits[k % 8])        # replaced by the operand's largest legal value in build_stmt, where one is listed
     if kind == "zero":
         return X.num(0)
+    if kind in ("bareb", "barez"):
+        return ("var", "P%d" % k)         # as bare, with values beyond the screen (set on line 12)
     if kind == "bare":
         # a bare variable of its own for every operand (P0..P6, set on line 15; the later ones descending: .75 before .25)
         return ("var", "P%d" % k)
@@ -66,7 +68,7 @@ def operand(kind, k):
 
 
 def str_operand(kind, k):
-    if kind in ("lit", "par", "neg", "not", "same", "rnd", "big", "zero", "bare"):
+    if kind in ("lit", "par", "neg", "not", "same", "rnd", "big", "zero", "bare", "bareb", "barez"):
         return ("str", ["U5", "L3", "T2"][k % 3])
     if kind in ("var", "arr"):
         return ("var", "A$" if k % 2 == 0 else "B$")
@@ -239,8 +241,19 @@ def run_case(case):
     prog = [(10, SETUP), (20, stmts)]
     if case.get("in_if"):
         prog = [(10, SETUP), (20, [("if", ("bin", "=", ("var", "A"), X.num(3)), ("stmts", stmts), [], None)])]
-    if "bare" in kinds:
+    if "bare" in kinds or "bareb" in kinds or "barez" in kinds:
         vals = [10, 20, 6, 2, 1, 0.75, 0.25]
+        if "barez" in kinds:
+            # every operand a variable that holds 0 (the value a library procedure is likeliest to "correct" in place)
+            vals = [0] * 7
+        elif "bare" not in kinds:
+            # the largest legal value of each operand of this statement (the last column, the last row ...)
+            k_ = 0
+            for nm_ in DV.OPERANDS[kind_name]:
+                if nm_ in req or nm_ in present:
+                    if (kind_name, nm_) in LEGAL_MAX and k_ < len(vals):
+                        vals[k_] = LEGAL_MAX[(kind_name, nm_)]
+                    k_ += 1
         prog.insert(1, (12, [("let", ("var", "P%d" % i), ("num", float(v), [("%g" % v).lstrip("0") or "0"]), False) for i, v in enumerate(vals)]))
         # ... and they are all used again afterwards
         prog.append((40, [("let", ("var", "Q"), _sum_vars(), False)]))
@@ -378,10 +391,10 @@ def cases(tier, seed):
                     kind_sets = [[KINDS[(n + j) % len(KINDS)] for j in range(7)], ["lit"], [rng.choice(KINDS) for _ in range(7)],
                                  ["tmp", "var", "dev", "expr", "arr", "par", "lit"], ["var"], ["tmp"], ["dev", "tmp"], ["neg"], ["not"],
                                  ["var", "neg", "lit", "not"], ["lit", "lit", "lit", "neg", "not", "neg", "not"], ["same"], ["rnd"],
-                                 ["same", "lit"], ["lit", "rnd"], ["big"], ["zero"], ["lit", "big"], ["big", "zero", "big"], ["bare"],
+                                 ["same", "lit"], ["lit", "rnd"], ["big"], ["zero"], ["lit", "big"], ["big", "zero", "big"], ["bare"], ["bareb"], ["barez"],
                                  [rng.choice(KINDS) for _ in range(7)]]
                 else:
-                    kind_sets = [[k] for k in KINDS] + [["same"], ["rnd"], ["bare"], ["big"], ["zero"], ["lit", "big"], ["big", "lit"], ["big", "zero", "big"], ["same", "lit"], ["lit", "same"], ["rnd", "lit"], ["lit", "rnd"],
+                    kind_sets = [[k] for k in KINDS] + [["same"], ["rnd"], ["bare"], ["bareb"], ["barez"], ["big"], ["zero"], ["lit", "big"], ["big", "lit"], ["big", "zero", "big"], ["same", "lit"], ["lit", "same"], ["rnd", "lit"], ["lit", "rnd"],
                                                         ["same", "rnd"], ["lit", "lit", "same"], ["same", "var", "same"]] + [list(t) for t in itertools.islice(itertools.permutations(KINDS, 7), 0, 181440, 9000)] + \
                                 [[rng.choice(KINDS) for _ in range(7)] for _ in range(6)]
                 if tier == "thorough":
